@@ -14,7 +14,7 @@ import (
 // C09 — names bound inside for / function / partial / contentOf / block-with-
 // context scopes never leak or clobber. Reference: an environment chain.
 
-var c09Kinds = []string{"for", "fn", "partial", "contentOf", "blockWith", "contentOf-replayed-in-for", "contentOf-replayed-in-fn", "contentOf-twice", "partial-without-data-twice", "partial-same-data-map-twice"}
+var c09Kinds = []string{"for", "fn", "partial", "contentOf", "blockWith", "contentOf-replayed-in-for", "contentOf-replayed-in-fn", "contentOf-twice", "partial-without-data-twice", "partial-same-data-map-twice", "contentOf-without-data", "contentOf-default-block-without-data"}
 var c09Names = []string{"a", "b", "c"}
 
 type c09Gen struct {
@@ -142,6 +142,11 @@ func (g *c09Gen) construct(shape []string, level int) string {
 		g.exp.WriteString("{")
 		body := g.seq(shape[1:], level+1)
 		g.exp.WriteString("}")
+		if v != c09Nil && g.r.Chance(1, 3) {
+			// the same over an iterator (one element) instead of a list
+			g.labels["for-over-an-iterator"] = true
+			return fmt.Sprintf("<%%= for (%s) in once(%s) { %%>{%s}<%% } %%>", n, c09Lit(v), body)
+		}
 		return fmt.Sprintf("<%%= for (%s) in [%s] { %%>{%s}<%% } %%>", n, c09Lit(v), body)
 	case "fn":
 		if g.r.Chance(1, 3) {
@@ -247,6 +252,16 @@ func (g *c09Gen) construct(shape []string, level int) string {
 		body := g.seq(shape[1:], level+1)
 		g.exp.WriteString("»")
 		return fmt.Sprintf("<%% contentFor(\"c%d\") { %%>«%s»<%% } %%><%%= contentOf(\"c%d\", {%s: %s}) %%>", id, body, id, n, c09Lit(v))
+	case "contentOf-without-data", "contentOf-default-block-without-data":
+		// no data: the block still runs in a scope of its own
+		delete(g.scopes[len(g.scopes)-1], n)
+		g.exp.WriteString("«")
+		body := g.seq(shape[1:], level+1)
+		g.exp.WriteString("»")
+		if kind == "contentOf-default-block-without-data" {
+			return fmt.Sprintf("<%%= contentOf(\"never%d\") { %%>«%s»<%% } %%>", id, body)
+		}
+		return fmt.Sprintf("<%% contentFor(\"c%d\") { %%>«%s»<%% } %%><%%= contentOf(\"c%d\") %%>", id, body, id)
 	default: // blockWith
 		g.exp.WriteString("‹")
 		body := g.seq(shape[1:], level+1)
@@ -265,6 +280,7 @@ func c09Ctx(partials map[string]string) *plush.Context {
 		s, err := h.BlockWith(nc)
 		return template.HTML(s), err
 	})
+	ctx.Set("once", func(v interface{}) plush.Iterator { return &sliceIter{items: []interface{}{v}} })
 	ctx.Set("partialFeeder", func(n string) (string, error) {
 		if s, ok := partials[n]; ok {
 			return s, nil
